@@ -210,6 +210,11 @@ func New(model *openfgav1.AuthorizationModel) (*TypeSystem, error) {
 			}
 
 			if metadata, ok := td.GetMetadata().GetRelations()[relation]; ok {
+				for _, rr := range metadata.GetDirectlyRelatedUserTypes() {
+					if err := checkRelationReferenceShape(typeName, relation, rr); err != nil {
+						return nil, err
+					}
+				}
 				r.TypeInfo.DirectlyRelatedUserTypes = metadata.GetDirectlyRelatedUserTypes()
 			}
 
@@ -352,6 +357,24 @@ func (t *TypeSystem) GetCondition(name string) (*condition.EvaluableCondition, b
 		return nil, false
 	}
 	return t.conditions[name], true
+}
+
+// checkRelationReferenceShape rejects a type restriction whose relation_or_wildcard oneof is present but empty
+// (a relation with the empty name, or a wildcard without payload). Such a reference names neither a type, nor a
+// userset, nor a typed wildcard, and the authorization model graph cannot represent it.
+func checkRelationReferenceShape(objectType, relation string, rr *openfgav1.RelationReference) error {
+	switch v := rr.GetRelationOrWildcard().(type) {
+	case *openfgav1.RelationReference_Relation:
+		if v.Relation == "" {
+			return fmt.Errorf("%w: the type restriction '%s' of relation '%s#%s' has an empty relation", ErrInvalidModel, rr.GetType(), objectType, relation)
+		}
+	case *openfgav1.RelationReference_Wildcard:
+		if v.Wildcard == nil {
+			return fmt.Errorf("%w: the type restriction '%s' of relation '%s#%s' has an empty wildcard", ErrInvalidModel, rr.GetType(), objectType, relation)
+		}
+	}
+
+	return nil
 }
 
 // GetRelationReferenceAsString returns team#member, or team:*, or an empty string if the input is nil.
